@@ -81,3 +81,16 @@ V('C02-rust-exists-operand-swapped', 'C02', [(RS, '                stack.push(Te
 V('C02-gen-writes-wrong-var', 'C02', [(PG + 'serializing_interpreter.py', '        self.out.write(bytes([Instruction.Generalization, var.name]))', '        self.out.write(bytes([Instruction.Generalization, 0]))')], names='exists_generalization')
 V('C02-twin-local-bytes', 'C02', [(PG + 'serializing_interpreter.py', '        self.out.write(bytes([Instruction.App]))', '        payload = bytes([Instruction.App])\n        self.out.write(payload)')], expect='silent')
 V('C02-twin-stateful-asserts-swapped', 'C02', [(PG + 'stateful_interpreter.py', '    def app(self, left: Pattern, right: Pattern) -> Pattern:\n        *self.stack, expected_left, expected_right = self.stack\n        assert expected_left == left\n        assert expected_right == right', '    def app(self, left: Pattern, right: Pattern) -> Pattern:\n        *self.stack, expected_left, expected_right = self.stack\n        assert right == expected_right\n        assert left == expected_left')], expect='silent')
+
+# ---------------------------------------------------------------- C10
+PP = PG + 'proofs/propositional.py'
+TT = PG + 'tautology.py'
+V('C10-and_l_imp-wrong-arg', 'C10', [(PP, '        return self.con1(self.absurd(p, neg(q)))', '        return self.con1(self.absurd(p, q))')], names='and_l_imp')
+V('C10-and_r_imp-swapped', 'C10', [(PP, '        return self.con1(self.prop1_inst(neg(q), p))', '        return self.con1(self.prop1_inst(neg(p), q))')], names='and_r_imp')
+V('C10-or_distr_r-wrong-axiom', 'C10', [(TT, '        return self.dynamic_inst(self.load_axiom_by_index(2), _build_subst([pat1, pat2, pat3]))', '        return self.dynamic_inst(self.load_axiom_by_index(3), _build_subst([pat1, pat2, pat3]))')], names='or_distr_r')
+V('C10-axiom-list-edited', 'C10', [(TT, '                Implies(_or(_or(phi0, phi1), phi2), _or(phi0, _or(phi1, phi2))),', '                Implies(_or(_or(phi0, phi1), phi2), _or(phi1, _or(phi0, phi2))),')], names='lemma-schema')
+V('C10-imp-provable-returns-other-valid', 'C10', [(PP, '        q = q_pf.conc\n        return self.modus_ponens(self.prop1_inst(q, p), q_pf)', '        q = q_pf.conc\n        return self.modus_ponens(self.prop1_inst(q, q), q_pf)')], names='imp_provable')
+V('C10-notation-redefined', 'C10', [(PG + 'pattern.py', "_or = Notation('or', 2, Implies(neg(phi0), phi1), '({0} ⋁ {1})')", "_or = Notation('or', 2, Implies(neg(phi1), phi0), '({0} ⋁ {1})')")], names='lemma-schema')
+V('C10-thunk-built-in-library', 'C10', [(PP, '    def top_intro(self) -> ProofThunk:\n        """top"""\n        return self.imp_refl(bot())', '    def top_intro(self) -> ProofThunk:\n        """top"""\n        from proof_generation.proof import ProofThunk as PT\n        return ProofThunk(lambda i: self.imp_refl(bot())(i), top())')], names='thunk-confinement')
+V('C10-twin-renamed-local', 'C10', [(PP, '        q = q_pf.conc\n        return self.modus_ponens(self.prop1_inst(q, p), q_pf)', '        concl = q_pf.conc\n        step = self.prop1_inst(concl, p)\n        return self.modus_ponens(step, q_pf)')], expect='silent')
+V('C10-twin-other-derivation', 'C10', [(PP, '    def top_intro(self) -> ProofThunk:\n        """top"""\n        return self.imp_refl(bot())', '    def top_intro(self) -> ProofThunk:\n        """top"""\n        return self.bot_elim(bot())')], expect='silent')
